@@ -225,6 +225,23 @@ def run(ctx, R, tier):
         R.check(gcfg.guarded(n, lambda e: edge_has_fact(e, exposed_true)), "C02-R2", "_get_attribute|exposed-test#%d" % i,
                 "return is reachable only on the true edge of getattr(x, '_pyroExposed', False)", g.loc(n.ast),
                 "a member that was never exposed can be returned for dispatch")
+    # what is returned is the looked-up member, never the target object itself; and the gates cannot fall off their end (an implicit None is a normal reply, not a refusal)
+    grd = ctx.rd(g)
+    for i, n in enumerate(rets):
+        v = n.ast.value
+        okv = isinstance(v, ast.Name) and bool(grd.reaching(n, v.id)) and all(
+            d.kind == "assign" and isinstance(d.value, ast.Call) and dotted(d.value.func) == "getattr" and len(d.value.args) >= 2 and unparse(d.value.args[1]) == attr
+            for d in grd.reaching(n, v.id))
+        R.check(okv, "C02-R2", "_get_attribute|returns-the-looked-up-member#%d" % i, "the returned value comes from getattr(obj, <name>) on every path", g.loc(n.ast),
+                "a path reaches the return with the target object itself (the lookup was skipped): for an exposed class the exposure test passes and the object is called instead of a member")
+    for qn_ in (GATE, PGET, PSET):
+        gg = ctx.fn(qn_)
+        c_ = ctx.cfg(gg)
+        rr = [n for n in c_.nodes if n.kind == "stmt" and isinstance(n.ast, ast.Return)]
+        okf = c_.all_paths_pass([c_.entry], lambda n: n in rr, targets=[c_.exit])
+        R.check(okf, "C02-R2", "%s|no-fall-through" % gg.name, "the gate ends only by an explicit return or by raising", gg.loc(),
+                "some path leaves %s without return or raise: the request is answered with None as a normal result instead of being refused" % gg.name)
+
     def not_descriptor(atom, pol):
         return pol is False and isinstance(atom, ast.Call) and dotted(atom.func) == "inspect.isdatadescriptor" and atom.args and \
             isinstance(atom.args[0], ast.Call) and dotted(atom.args[0].func) == "inspect.getattr_static"
@@ -406,9 +423,10 @@ def run(ctx, R, tier):
         for node in ecfg.nodes_for(st):
             if inside:
                 n_in += 1
-                if not ecfg.guarded(node, lambda e: edge_has_fact(e, private_false(ctx, ex))):
+                loopvars = {n.id for n in ast.walk(lp.target) if isinstance(n, ast.Name)}
+                if not ecfg.guarded(node, lambda e: edge_has_fact(e, private_false(ctx, ex, loopvars))):
                     okp = False
-                    why = "member mark at %s is not behind the private-name test" % ex.loc(st)
+                    why = "member mark at %s is not behind a private-name test of the member's own name (%s)" % (ex.loc(st), "/".join(sorted(loopvars)))
     R.check(okp and n_in >= 4, "C02-R5", "expose|class-branch-private-skip", "every mark stored in the class loop is behind the private-name test", ex.loc(lp), why)
     okp = True
     for st, t in mark_stores:
